@@ -18,7 +18,7 @@ BIN = os.path.join(ROOT, "build/asan/sim.bin")
 WORKERS = int(os.environ.get("VERIF_WORKERS", "16"))
 
 QUICK = {"runs": 640, "secs": 45}
-THOROUGH = {"runs": 400000, "secs": 900}
+THOROUGH = {"runs": 400000, "secs": 600}
 
 CHAR = {
     "C01": [r"^rebuild$"], "C02": [r"^mk"], "C03": [r"^mk"],
